@@ -69,6 +69,23 @@ theorem wp_mono {m : M α} {Q Q' : α → St → Prop} {E E' : Exc → St → Pr
   cases h : cf.fails s.n <;> simp [h]
 
 
+/-- `PRAGMA foreign_keys` after a successful statement -/
+def fkAfter : Sql → Bool → Bool
+  | .pragmaFkOn, _ => true
+  | .pragmaFkOff, _ => false
+  | _, fk => fk
+
+def dirtyAfter : Sql → Bool → Bool
+  | .begin, _ => true
+  | _, d => d
+
+@[simp] theorem wp_conExecute (cf : Cfg) (k : Nat) (q : Sql) (Q : Unit → St → Prop) (E) (s) :
+    wp (conExecute cf k q) Q E s =
+      if cf.fails s.n then E .raw { s with n := s.n + 1, trace := Ev.call (.execute q) k false :: s.trace, dirty := dirtyAfter q s.dirty }
+      else Q () { s with n := s.n + 1, trace := Ev.call (.execute q) k true :: s.trace, dirty := dirtyAfter q s.dirty,
+                         fk := fkAfter q s.fk } := by
+  cases q <;> simp [conExecute, fkAfter, dirtyAfter] <;> split <;> rfl
+
 /-! ### invariants, written as functions of the fields they depend on (so that `simp` normalises them after updates) -/
 
 /-- lock bookkeeping recomputed from the recorded events (newest first): `(pre_transaction_lock, transaction_lock)` held -/
@@ -331,32 +348,5 @@ theorem quiet_facts {cf p n pc pid} (h : FlF cf true p n pc pid) :
   exact ⟨⟨hq _ (by omega), hq _ (by omega), hq _ (by omega), hq _ (by omega), hq _ (by omega)⟩,
     FlF_true_intro hq (by omega) h1 h2, FlF_true_intro hq (by omega) h1 h2, FlF_true_intro hq (by omega) h1 h2,
     FlF_true_intro hq (by omega) h1 h2, FlF_true_intro hq (by omega) h1 h2⟩
-
-/-- `SQLiteProvider.set_transaction_mode`: ends holding the lock exactly when it has set `in_transaction` -/
-theorem spec_setTransactionMode (cf : Cfg) (q p : Bool) (con : Nat) (s : St) (hG : G cf q p s)
-    (hin : s.cache.inTx = false) (hl : s.lock = false) (hddl : cf.ddl = true → s.cache.immediate = true) :
-    wp (setTransactionMode cf con)
-      (fun _ s' => G cf q p s' ∧ s'.cache.inTx = s.cache.immediate ∧ s'.lock = s.cache.immediate ∧
-                   s'.cache.conn = s.cache.conn ∧ s'.cache.immediate = s.cache.immediate ∧ s'.cache.pending = s.cache.pending ∧
-                   Fr3 s s' ∧ (s'.dirty = true → s.dirty = true ∨ s.cache.immediate = true))
-      (fun _ s' => (G cf q p s' ∧ s'.cache.inTx = false ∧ s'.lock = false ∧
-                    s'.cache.conn = s.cache.conn ∧ s'.cache.immediate = s.cache.immediate ∧ s'.cache.pending = s.cache.pending ∧
-                    Fr3 s s') ∧ q = false) s := by
-  obtain ⟨hA, hW, hF⟩ := hG
-  obtain ⟨hb, hpre, hls⟩ := hW
-  rw [hl] at hls
-  cases q with
-  | true =>
-    obtain ⟨⟨h0, h1, h2, h3, h4⟩, hF1, hF2, hF3, hF4, hF5⟩ := quiet_facts hF
-    cases himm : s.cache.immediate <;> cases hd : cf.ddl <;> cases hfk : s.fk <;>
-      simp_all [setTransactionMode, conCursor, conExecute, G, WBF, lockState, CFr, Fr3]
-  | false =>
-    cases himm : s.cache.immediate <;> cases hd : cf.ddl <;> cases hfk : s.fk <;>
-      simp only [setTransactionMode, conCursor, conExecute, wp_bind, wp_getS, wp_modS, wp_modC, wp_dbcall, wp_tryFinally,
-        wp_wrap, wp_ite, wp_releaseLock, wp_acquireLock, wp_assertM, wp_pure, hin, himm, hd, hfk, hl, hpre] <;>
-      simp (config := { decide := true }) only [if_true, if_false, Bool.not_false, Bool.not_true, wp_bind, wp_getS, wp_modS, wp_modC, wp_dbcall,
-        wp_tryFinally, wp_wrap, wp_ite, wp_releaseLock, wp_acquireLock, wp_assertM, wp_pure, Bool.false_eq_true, Bool.and_true,
-        Bool.and_false, Bool.true_and, Bool.false_and] <;>
-      (repeat' split) <;> simp_all [G, WBF, lockState, CFr, Fr3]
 
 end PonyVerif.Model.ConnLock
